@@ -41,4 +41,5 @@ registry! {
     c13::C13,
     c14::C14,
     c15::C15,
+    c17::C17,
 }
